@@ -921,11 +921,15 @@ def _bounded_lsm_sync(seed, tier):
         strat = [SizeTieredCompaction(min_sstables=rng.choice([2, 3])),
                  LeveledCompaction(level_0_max=rng.choice([1, 2]), size_ratio=2, base_size_keys=rng.choice([1, 2])),
                  FIFOCompaction(max_total_sstables=rng.choice([1, 2, 3]))][t % 3]
-        tree = LSMTree("t", memtable_size=rng.choice([1, 2, 3]), compaction_strategy=strat, max_levels=rng.choice([2, 3, 4]))
+        # every third sequence is a "deep" one: many flushes into a tall tree, so that compactions cascade and leave
+        # empty levels between occupied ones (tombstones must survive until nothing older lies beneath them)
+        deep = t % 3 == 1 or t % 7 == 0
+        tree = LSMTree("t", memtable_size=rng.choice([1, 2] if deep else [1, 2, 3]), compaction_strategy=strat,
+                       max_levels=rng.choice([5, 7] if deep else [2, 3, 4]))
         model, trace = {}, []
-        keys = ["a", "b", "c", "d"]
-        for i in range(rng.randint(5, 40)):
-            op = rng.choices(["put", "del", "get", "scan"], [5, 2, 4, 1])[0]
+        keys = ["a", "b", "c", "d", "e", "f"] if deep else ["a", "b", "c", "d"]
+        for i in range(rng.randint(60, 220) if deep else rng.randint(5, 40)):
+            op = rng.choices(["put", "del", "get", "scan"], [5, 3, 4, 1] if deep else [5, 2, 4, 1])[0]
             k = rng.choice(keys)
             evals += 1
             if op == "put":
